@@ -23,8 +23,8 @@ class VerifBase(exceptions.JsonRpcError):
     """the base class the client is configured with"""
 
 
-ARGS = {'none': ((), {}), 'pos': ((1, 'x'), {}), 'named': ((), {'a': 1, 'b': 'x'})}
-VALUE = {'v_none': {'a': None, 'b': None}, 'v_ab': {'a': 1, 'b': 'x'}}
+ARGS = {'none': ((), {}), 'pos': ((1, 'x'), {}), 'named': ((), {'a': 1, 'b': 'x'}), 'posdict': (({'a': 1, 'b': 'x'},), {})}
+VALUE = {'v_none': {'a': None, 'b': None}, 'v_ab': {'a': 1, 'b': 'x'}, 'v_dict': {'a': {'a': 1, 'b': 'x'}, 'b': None}}
 TYPED_DATA = {'k': [1, None]}
 
 
@@ -40,12 +40,16 @@ def a_args(params):
         return 'none'
     if list(params) == [1, 'x'] and not isinstance(params, dict):
         return 'pos'
+    if not isinstance(params, dict) and list(params) == [{'a': 1, 'b': 'x'}]:
+        return 'posdict'
     if params == {'a': 1, 'b': 'x'}:
         return 'named'
     return 'other'
 
 
 def a_exec_args(a, b):
+    if (a, b) == ({'a': 1, 'b': 'x'}, None):
+        return 'dict'
     return 'none' if (a, b) == (None, None) else ('ab' if (a, b) == (1, 'x') else 'other')
 
 
